@@ -989,6 +989,12 @@ class SourceFinder(object):
             sx = model[prefix + "sx"].value
             sy = model[prefix + "sy"].value
             theta = model[prefix + "theta"].value
+            # theta is not bounded in the fit and can wander to huge values
+            # (circular sources), where theta-90 is no longer representable:
+            # bring it back to within one turn (the same angle)
+            if np.isfinite(theta) and abs(theta) > 360:
+                theta = math.fmod(theta, 360.0)
+                model[prefix + "theta"].set(value=theta)
             amp = model[prefix + "amp"].value
             src_flags |= int(model[prefix + "flags"].value)
 
